@@ -52,7 +52,8 @@ def _s(p):
 class Fault:
     """raise exc at the k-th matching library event (1-based)"""
 
-    def __init__(self, k, kinds, phases, make_exc):
+    def __init__(self, k, kinds, phases, make_exc, realistic=True):
+        self.realistic = realistic
         self.k = k
         self.kinds = kinds
         self.phases = phases
@@ -60,6 +61,21 @@ class Fault:
         self.count = 0
         self.fired = None    # event record of the injected fault
         self.exc = None
+
+
+def realistic_fault(kind, paths):
+    """Only inject where the real call could fail that way: mkdir of an existing
+    entry always reports FileExistsError (which os.makedirs(exist_ok=True) and the
+    library legitimately swallow), rename/remove of a missing source always reports
+    FileNotFoundError."""
+    try:
+        if kind == 'os.mkdir':
+            return not os.path.lexists(paths[0])
+        if kind in ('os.rename', 'os.remove', 'os.rmdir'):
+            return os.path.lexists(paths[0])
+    except OSError:
+        return False
+    return True
 
 
 class FsMonitor:
@@ -132,6 +148,8 @@ class FsMonitor:
             paths = [os.path.abspath(p) if not p.startswith('<') else p for p in paths]
         rec = {'ev': kind, 'paths': paths, 'phase': self.phase, 'user': user,
                'thread': threading.get_ident()}
+        if not user and not relfd and kind in ('os.mkdir', 'os.rename', 'os.remove', 'os.rmdir'):
+            rec['realistic'] = realistic_fault(kind, paths)
         with self.lock:
             rec['seq'] = len(self.events)
             self.events.append(rec)
@@ -141,7 +159,7 @@ class FsMonitor:
             return
         f = self.fault
         if f is not None and f.fired is None and kind in f.kinds and self.phase in f.phases \
-                and not relfd:
+                and not relfd and (not f.realistic or rec.get('realistic', True)):
             with self.lock:
                 f.count += 1
                 hit = f.count == f.k
